@@ -12,6 +12,7 @@ def table : List ModelEntries :=
   [ Entries.stopsource
   , Entries.cancellable
   , Entries.detachoncancel
+  , Entries.canary
   ]
 
 def lookup (m c : String) : Option Entry :=
